@@ -405,6 +405,13 @@ func (in *Interp) evalIndex(x *ast.IndexExpr, st *State) []evalRes {
 			if base.K == kTop && base.Stale {
 				ir.st.readStale = append(ir.st.readStale, in.prog.Pos(x.Pos())+" indexed value")
 			}
+			// whatever the indexed slice, array or string holds, a definitely negative index panics
+			if i, ok := idx.isInt(); ok && i < 0 && !in.isMapIndex(x) {
+				ir.st.notes = append(ir.st.notes, "index out of range ["+idx.String()+"]: "+types.ExprString(x)+" at "+in.prog.Pos(x.Pos()))
+				ir.st.panicked = ir.st.notes[len(ir.st.notes)-1]
+				out = append(out, evalRes{ir.st, panicVal()})
+				continue
+			}
 			out = append(out, evalRes{ir.st, vTop})
 		}
 	}
@@ -427,6 +434,10 @@ func (in *Interp) evalSlice(x *ast.SliceExpr, st *State) []evalRes {
 				var next []*State
 				for _, c := range cur {
 					for _, r := range in.eval(ix, c) {
+						if i, ok := r.v.isInt(); ok && i < 0 {
+							r.st.notes = append(r.st.notes, "slice bounds out of range ["+r.v.String()+"]: "+types.ExprString(x)+" at "+in.prog.Pos(x.Pos()))
+							r.st.panicked = r.st.notes[len(r.st.notes)-1]
+						}
 						next = append(next, r.st)
 					}
 				}
@@ -974,4 +985,13 @@ func cloneLocals(m map[any]Val) map[any]Val {
 		n[k] = v
 	}
 	return n
+}
+
+// isMapIndex: x indexes a map (a negative key is not an error there).
+func (in *Interp) isMapIndex(x *ast.IndexExpr) bool {
+	if tv, ok := in.info.Types[x.X]; ok && tv.Type != nil {
+		_, isMap := tv.Type.Underlying().(*types.Map)
+		return isMap
+	}
+	return true // unknown type: do not claim a panic
 }
